@@ -39,6 +39,9 @@ type Script struct {
 	// waiting to be handed to the HTTP/1.1 server when the context is cancelled.
 	AcceptDelayMs int64 `json:"accept_delay_ms"`
 	Burst         int   `json:"burst"`
+	// SecondListener: the same Server serves a second listener through a second Serve call (what setupServe's
+	// mutex is for); cancellation ends that call too, with its listener closed
+	SecondListener bool `json:"second_listener,omitempty"`
 }
 
 var col = vstat.New("C17", "c17.shutdown")
@@ -62,6 +65,7 @@ func gen(t *rapid.T) Script {
 		s.AcceptDelayMs = rapid.SampledFrom([]int64{0, 0, 30, 1500}).Draw(t, "acceptDelay")
 		s.Burst = rapid.SampledFrom([]int{0, 0, 1, 2, 5, 12}).Draw(t, "burst")
 	}
+	s.SecondListener = s.Trigger != "early" && s.Trigger != "http-close" && rapid.IntRange(0, 3).Draw(t, "ln2") == 0
 	s.PostMs = rapid.SliceOfN(rapid.SampledFrom([]int64{0, 1, 100, 900, 4000, 6500, 40000}), 1, 4).Draw(t, "post")
 	return s
 }
@@ -103,6 +107,12 @@ func exec(t *testing.T, s Script) *vstat.Violation {
 					next.ServeHTTP(w, r)
 				})
 			}})
+		var ln2 *rig.Listener
+		serve2 := make(chan error, 1)
+		if s.SecondListener {
+			ln2 = rig.NewListener()
+			go func() { serve2 <- p.Srv.Serve(ln2) }()
+		}
 		var runs []*rig.ClientRun
 		inflightH1 := 0
 		newH1 := 0
@@ -254,6 +264,19 @@ func exec(t *testing.T, s Script) *vstat.Violation {
 		case p.Ln.CloseCalls.Load() == 0 || !p.Ln.IsClosed():
 			viol = vstat.Violf("shutdown|listener-not-closed", "%s: Serve returned but the listener was not closed", workload)
 		}
+		if viol == nil && s.SecondListener {
+			select {
+			case err2 := <-serve2:
+				if !errors.Is(err2, http.ErrServerClosed) {
+					viol = vstat.Violf("shutdown|second-listener|wrong-error", "%s: the Serve call on the server's second listener returned %v, want http.ErrServerClosed", workload, err2)
+				} else if ln2.CloseCalls.Load() == 0 || !ln2.IsClosed() {
+					viol = vstat.Violf("shutdown|second-listener|listener-not-closed", "%s: the second Serve call returned but its listener was not closed", workload)
+				}
+			case <-time.After(upper):
+				viol = vstat.Violf("shutdown|second-listener|serve-did-not-return", "%s: the first Serve call returned after %v; the Serve call on the same server's second listener has not returned %v later", workload, elapsed, upper)
+			}
+			classes = append(classes, "server-with-two-listeners")
+		}
 		pwg.Wait()
 		rig.Wait()
 		if viol == nil && len(postServed) > 0 {
@@ -334,6 +357,6 @@ func exec(t *testing.T, s Script) *vstat.Violation {
 
 func TestShutdown(t *testing.T) {
 	rig.Certs()
-	col.Mandatory("at-cancel:mid-handshake", "at-cancel:h1-idle", "at-cancel:h1-new", "at-cancel:h1-inflight", "at-cancel:h2-idle", "at-cancel:h2-inflight", "handshakes-done-but-not-yet-accepted-at-cancel", "trigger:cancel", "trigger:cancel-with-cause", "trigger:cancel-twice", "trigger:early", "trigger:http-close")
+	col.Mandatory("server-with-two-listeners", "at-cancel:mid-handshake", "at-cancel:h1-idle", "at-cancel:h1-new", "at-cancel:h1-inflight", "at-cancel:h2-idle", "at-cancel:h2-inflight", "handshakes-done-but-not-yet-accepted-at-cancel", "trigger:cancel", "trigger:cancel-with-cause", "trigger:cancel-twice", "trigger:early", "trigger:http-close")
 	vstat.Run(t, vstat.Spec[Script]{Col: col, Quick: 1200, Thorough: 30000, Gen: gen, Exec: func(s Script) *vstat.Violation { return exec(t, s) }})
 }
